@@ -49,6 +49,7 @@ type Case struct {
 	// lacks) that runs between the repetitions of sequential tasks and as a concurrent task of
 	// its own: what one parsed script leaves behind must not leak into the runs of another.
 	NoiseProg *gen.Program `json:"noise_program,omitempty"`
+	Scribble  bool         `json:"scribble,omitempty"` // the caller writes into every result it receives
 }
 
 type Result struct {
@@ -262,6 +263,9 @@ func Execute(c Case, keepTrace bool, ch chooser) (res Result) {
 		s.add(func() {
 			for r := 0; r < t.Reps; r++ {
 				o := exec.Run(ctx, pr, vars, st, flags)
+				if c.Scribble {
+					o.Scribble()
+				}
 				slots[i].out = append(slots[i].out, o)
 				if between {
 					// history: another script, declaring what this one lacks, runs in between
@@ -326,6 +330,9 @@ func Execute(c Case, keepTrace bool, ch chooser) (res Result) {
 			}
 		}
 		for r, o := range slots[i].out {
+			if c.Scribble {
+				break
+			}
 			if later, same := o.Recheck(); !same {
 				res.Violation = viol("purity", "result-changed-after-return", fmt.Sprintf("the result task %d repetition %d returned read %s when it was returned and reads %s after the other runs finished", i, r+1, core.Truncate(o.Canon(), 400), core.Truncate(later, 400)))
 				return res
@@ -491,6 +498,23 @@ func genCase(r *rand.Rand) (Case, chooser) {
 		}
 	}
 	k = len(c.Tasks)
+	// a share of cases pads values with whitespace (the caller's map must come back untouched,
+	// whatever the interpreter makes of such values)
+	if r.IntN(8) == 0 {
+		for _, v := range g.Prog.Vars {
+			if v.Fn == "" && r.IntN(2) == 0 {
+				pad := []string{" %s", "%s ", "\t%s", "%s\n", " %s "}[r.IntN(5)]
+				for i := range c.Tasks {
+					if cur, ok := c.Tasks[i].Vars[v.Name]; ok && !strings.ContainsAny(cur, " \t\n") || v.Type == "string" {
+						c.Tasks[i].Vars[v.Name] = fmt.Sprintf(pad, g.In.Vars[v.Name])
+					}
+				}
+			}
+		}
+	}
+	// the caller owns what Run returns: in a share of cases it writes into every result it gets
+	// (later runs must not see that); those cases skip the re-reading of results at the end
+	c.Scribble = r.IntN(4) == 0
 	// a share of cases carries ill-formed variable values: which error is reported
 	// must not depend on map iteration order or on the other tasks
 	if r.IntN(7) == 0 {
